@@ -340,6 +340,15 @@ func specificAddrs(v ssa.Value) ([]string, bool) {
 	arg := core.Strip(call.Call.Args[0])
 	var out []string
 	ok := true
+	// the list may be produced by a parameterless helper that returns the literal
+	if hc, isCall := arg.(*ssa.Call); isCall {
+		if g := core.StaticCallee(hc); g != nil && len(g.Blocks) > 0 && len(g.Params) == 0 {
+			rets := core.Returns(g)
+			if len(rets) == 1 && len(rets[0].Results) == 1 {
+				arg = core.Strip(rets[0].Results[0])
+			}
+		}
+	}
 	sl, isSl := arg.(*ssa.Slice)
 	if !isSl {
 		return nil, false
